@@ -559,6 +559,33 @@ fn c08(scn: &Scenario, _rf: &Ref, ex: &Exec, out: &mut Vec<Finding>) {
             out.push(f("too-many-live", format!("Max({}): {} workers alive at once in frame {}", n, fr.max_live, i)));
         }
     }
+    // the calling thread folds results while later workers are still running: workers alive plus the caller
+    // must not exceed n whenever the caller executes a closure inside a runner frame
+    {
+        let mut live: i64 = 0;
+        let mut in_frame = false;
+        for e in log {
+            match e.kind {
+                Kind::RunBegin => {
+                    in_frame = true;
+                    live = 0;
+                }
+                Kind::RunEnd => in_frame = false,
+                Kind::WorkerReg => live += 1,
+                Kind::WorkerEnd => live -= 1,
+                Kind::Call | Kind::Inner if in_frame && e.slot == 0 => {
+                    if live as usize + 1 > n {
+                        out.push(f(
+                            "too-many-concurrent",
+                            format!("Max({}): the calling thread ran a closure of stage {} while {} workers were still running", n, e.stage, live),
+                        ));
+                        break;
+                    }
+                }
+                _ => {}
+            }
+        }
+    }
     // distinct threads per closure
     let mut per_stage: BTreeMap<u16, Vec<u16>> = BTreeMap::new();
     for e in log {
